@@ -24,6 +24,7 @@ for f in sys.argv[1:]:
         elif line.startswith("["):
             m = re.search(r"exit=(\d+)", line)
             if m: cur["exit"] = m.group(1)
+            else: cur["exit"] = "1" if cur["viol"] else "0"   # status line cut before exit=
             m = re.search(r"obligations=(\d+) discharged=(\d+)", line)
             if m and m.group(1) != m.group(2): cur["extra"] += " obligations %s/%s" % (m.group(2), m.group(1))
         elif "PATCH" in line or "error" in line or "tooling" in line:
